@@ -85,6 +85,20 @@ def all_optional_record(T):
     return b[0] in ('SEQ', 'SET') and all(f[2] != 'R' for f in b[1])
 
 
+def py_data_equals(ft, cv, dv, native):
+    """does plain Python data for cv compare equal (==) to the default value OBJECT holding dv?  NULL, records and
+    CHOICEs never do; lists compare member by member in stored order; the native encoder's bytes for UTF8String and
+    dotted text for OBJECT IDENTIFIER do not"""
+    b = M.base_of(ft)
+    if b[0] in ('NULL', 'SEQ', 'SET', 'CHOICE'):
+        return False
+    if b[0] in ('SEQOF', 'SETOF'):
+        return len(cv) == len(dv) and all(py_data_equals(b[1], x, y, native) for x, y in zip(cv, dv))
+    if native and (b[0] == 'OID' or b == ('STR', 'UTF8String')):
+        return False
+    return M.values_equal(ft, cv, dv)
+
+
 class EmuEncoder(M.Encoder):
     def __init__(self, policy, flags, codec):
         M.Encoder.__init__(self, policy)
@@ -132,7 +146,10 @@ class EmuEncoder(M.Encoder):
                 else:
                     cv = v[name]
                 if opt == 'D' and M.values_equal(ft, cv, M.thaw(dflt)):
-                    continue
+                    # K9 (value-plus-schema path only): plain Python data never compares equal to a NULL or
+                    # constructed default object, so such a component is encoded
+                    if not ('K9' in self.flags and not py_data_equals(ft, cv, M.thaw(dflt), 'K9n' in self.flags)):
+                        continue
                 if self.k2():
                     self.ine = (opt == 'O')      # options.update(ifNotEmpty=namedType.isOptional)
                 e = self.enc(ft, cv)
